@@ -175,7 +175,7 @@ def execute(ctx, cases, corr):
             continue
         if c.impl != c.model:
             corr["model_disagreements"].append(c)
-        if c.expect_no_panic and (c.impl in ("panic", "abort") or c.impl.startswith("nondeterministic") or
+        if c.expect_no_panic and (c.impl in ("panic", "abort") or c.impl.startswith(("nondeterministic", "invalid-utf8", "clone-differs", "err-")) or
                                   (c.kind == "sweep" and " panic=0 " not in c.impl)):
             # the property itself (C04): whatever the model says, this outcome is a violation
             c.oracle = "returns Ok or Err (no panic / abort / hang), the same every time"
@@ -1552,7 +1552,8 @@ def cases_c19(ctx, boost):
     for tag, b in inputs:
         hx = b.hex() or "-"
         for ty in ARB_TYPED:
-            out.append(np(Case("arb", "000", f"arb {ty} {hx}", tag=f"{ty.split('::')[-1]}: {tag}", feats=feats)))
+            # the model's value is the tie (correspondence); the property's oracle is validity (np)
+            out.append(np(Case("arb", "000", f"arb {ty} {hx}", tag=f"{ty.split('::')[-1]}: {tag}", feats=feats, oracle_applies=False)))
         for ty in ARB_WHOLE:
             # steer the derived enums to every variant: the selector is the first u32 (little endian)
             out.append(np(Case("arb", "000", f"arb {ty} {hx}", tag=f"{ty}: {tag}", feats=feats)))
